@@ -3,7 +3,10 @@
 //
 // case   {"k":"c","d":"d4|d6|d7|d2019|d2020","s":<wire schema>,"dev":[..],"dc":[..],
 //         "r":[verdict per base instance],"x":[[<wire instance>,verdict],...]}
-//        verdict 1 = valid, 0 = invalid, 2 = don't-care (the evaluation would not terminate: never run)
+//        verdict 1 = valid, 0 = invalid, 2 = don't-care (the evaluation would not terminate: never run),
+//        3 = don't-care (multipleOf on numbers that binary floating point cannot represent exactly: run, the
+//        verdict is not compared with the prediction, only the agreement of the entry points with one another is)
+//        numbers: ["int", n] -> int64, ["dec", m, e] -> the double nearest to m * 10^e (jc::dec_value)
 //        "dc" non-empty: declared don't-care class - the verdict is not compared with the prediction, only the
 //        agreement of the entry points with one another is.
 //        "dev": known-deviation classes of the implementation the schema falls into (echoed into mismatch records).
@@ -25,7 +28,7 @@
 #include <memory>
 using namespace jsoncons;
 
-static long nchecks = 0, ninst = 0, ndontcare = 0, nwalk = 0;
+static long nchecks = 0, ninst = 0, ndontcare = 0, nwalk = 0, nfpdc = 0;
 
 // order modes: 0 forward (wire order), 1 every object reversed, 2 alternating (objects that are elements of an
 // array at an odd position, and everything below them, reversed; so two equal objects get different orders)
@@ -35,6 +38,7 @@ static Json build(const mj::Value& w, int mode, bool flip = false) {
     if (k == "null") return Json::null();
     if (k == "bool") return Json(w[1].as_bool());
     if (k == "int") return Json((int64_t)w[1].as_int());
+    if (k == "dec") return Json(jc::dec_value(w));
     if (k == "str") return Json(jc::cps_to_utf8(w[1]));
     if (k == "arr") {
         Json a(json_array_arg); size_t i = 0;
@@ -61,16 +65,41 @@ static std::string version_of(const std::string& d) {
 }
 
 static std::map<std::string, long> g_bucket;
-static std::string dev_of(const mj::Value& c) {
+// does the wire value contain a decimal with a zero fractional part (1.0)?
+static bool has_zero_fraction(const mj::Value& w) {
+    const std::string& k = w[0].str();
+    if (k == "dec") { int64_t m = w[1].as_int(), e = w[2].as_int(); return e == -1 ? m % 10 == 0 : m % 100 == 0; }
+    if (k == "arr") { for (auto& e : w[1].a) if (has_zero_fraction(e)) return true; return false; }
+    if (k == "obj") { for (auto& kv : w[1].a) if (has_zero_fraction(kv[1])) return true; return false; }
+    return false;
+}
+// does the wire value contain an object with at least two members one of which is a non-empty object?
+static bool has_member_beside_object(const mj::Value& w) {
+    const std::string& k = w[0].str();
+    if (k == "arr") { for (auto& e : w[1].a) if (has_member_beside_object(e)) return true; return false; }
+    if (k == "obj") {
+        if (w[1].size() >= 2) for (auto& kv : w[1].a) if (kv[1][0].str() == "obj" && kv[1][1].size() > 0) return true;
+        for (auto& kv : w[1].a) if (has_member_beside_object(kv[1])) return true;
+    }
+    return false;
+}
+// known-deviation classes of the case that can explain a mismatch on THIS instance: the class
+// d4-integer-zero-fraction (an integer-valued double accepted as "integer" in Draft 4) needs such a number in the instance,
+// unevaluatedProperties-leaks-child-properties (names evaluated inside a member value hide later members of the parent)
+// needs an object that has a non-empty object among two or more members
+static std::string dev_of(const mj::Value& c, const mj::Value* inst = nullptr) {
     std::vector<std::string> names; const mj::Value* d = c.find("dev");
-    if (d) for (auto& n : d->a) names.push_back(n.str());
+    if (d) for (auto& n : d->a) {
+        if (inst && n.str() == "d4-integer-zero-fraction" && !has_zero_fraction(*inst)) continue;
+        if (inst && n.str() == "unevaluatedProperties-leaks-child-properties" && !has_member_beside_object(*inst)) continue;
+        names.push_back(n.str()); }
     std::sort(names.begin(), names.end());
     std::string r; for (auto& n : names) { if (!r.empty()) r += ","; r += n; }
     return r;
 }
 // one record per (case, what); caps: 300 unclassified per shard (hz::emit_mismatch), 40 per (class set, kind)
 static void fail(size_t idx, const mj::Value& c, const std::string& variant, const std::string& what, const mj::Value* inst, int expected, const mj::Value& got) {
-    std::string dev = dev_of(c);
+    std::string dev = dev_of(c, inst);
     if (!dev.empty()) { long n = ++g_bucket[dev + "|" + what]; if (n > 40) return; }
     mj::Value m = hz::rec("mismatch"); m.set("idx", (int64_t)idx); m.set("variant", variant); m.set("what", what); m.set("dev", dev);
     if (inst) m.set("inst", *inst);
@@ -202,8 +231,8 @@ int main(int argc, char** argv) {
         mj::Value c = mj::parse(line);
         if (!c.has("k") || c["k"].str() != "c") return;
         ++ncases;
-        bool dontcare = c.has("dc") && c["dc"].size() > 0;
-        if (dontcare) ++ndontcare;
+        bool case_dontcare = c.has("dc") && c["dc"].size() > 0;
+        if (case_dontcare) ++ndontcare;
         if (c["r"].size() != base.size()) { fprintf(stderr, "base table size mismatch\n"); exit(2); }
         jsonschema::evaluation_options plain;
         jsonschema::evaluation_options odd; odd.require_format_validation(true).enable_custom_error_message(true).default_base_uri("http://verif.example/root.json");
@@ -219,6 +248,8 @@ int main(int argc, char** argv) {
         auto one = [&](const mj::Value& iw, int expected) {
             if (expected == 2) return;
             ++ninst;
+            bool dontcare = case_dontcare || expected == 3;
+            if (expected == 3) ++nfpdc;
             std::vector<int> v;
             run_instance(idx, c, j0, iw, expected, dontcare, v);
             run_instance(idx, c, o0, iw, expected, dontcare, v);
@@ -233,6 +264,6 @@ int main(int argc, char** argv) {
         for (auto& x : c["x"].a) one(x[0], (int)x[1].as_int());
     });
     mj::Value s = hz::rec("stat"); s.set("cases", (int64_t)ncases); s.set("checks", (int64_t)nchecks); s.set("instances", (int64_t)ninst);
-    s.set("dontcare", (int64_t)ndontcare); s.set("walks", (int64_t)nwalk); hz::emit(s);
+    s.set("dontcare", (int64_t)ndontcare); s.set("fp_dontcare_instances", (int64_t)nfpdc); s.set("walks", (int64_t)nwalk); hz::emit(s);
     return 0;
 }
